@@ -33,10 +33,12 @@ def oracle(ops, records, reset, engine_opts="none"):
     unless reset_on_return is disabled.  -> (key, step, why) or None"""
     from harness import lib_txn
 
-    if reset == "none":
-        return None
     for i, (tok, rec) in enumerate(zip(ops, records)):
         o = lib_txn.parse_record(rec)
+        if o["res"].startswith("EXC:") or o["res"].startswith("OBSERVE-ERROR"):
+            return ("c24-oracle", i, "step %d (%s) let an internal error escape: %s" % (i, tok, o["res"]))
+        if reset == "none":
+            continue
         if "LOCKED" in o["committed"] or "LOCKED" in o["working"]:
             return (classify(ops[: i + 1]), i, "step %d (%s): the database file is locked by a pooled DBAPI connection that still has a transaction open" % (i, tok))
         if tok != "N":
